@@ -1,4 +1,5 @@
 import Qv.Proofs.C11
+import Qv.Proofs.C11Sorted
 import Mathlib.Tactic.Group
 /-!
 # C11 — answers do not depend on output schedule or on the object's past use
@@ -138,6 +139,25 @@ theorem propagator_compose (A : Alg F) (L : Laws A) (cte : Bool) (hc : cte = tru
 theorem memo_bounded_lookup (A : Alg F) (p : Prop_ F) (hm : 1 ≤ p.memoize)
     (hl : p.times.length ≤ p.memoize) (t : Int) : (lookup A p t).1.times.length ≤ p.memoize :=
   lookup_length p hm hl t
+
+/-- **The memoised times stay strictly increasing** after every sequence of queries — any order, repeated,
+decreasing, negative times, any `t_start`, evictions included — for every evolution algebra (no flow law is
+needed): `_insert` keeps the insertion index equal to `searchsorted` of what is left while it evicts, and
+`_lookup_or_compute` only inserts a time that is not memoised yet.  This is what `np.searchsorted` in
+`_lookup_or_compute` relies on. -/
+theorem memo_sorted (A : Alg F) (cte : Bool) (memoize : Nat) (qs : List (Int × Int)) :
+    (calls A (init A cte memoize) qs).1.times.Pairwise (· < ·) :=
+  (calls_sinv A qs _ (init_sinv A cte memoize)).inc
+
+/-- ... and a time that is memoised is found by the search, so it is never computed or stored twice. -/
+theorem memo_hit (times : List Int) (t : Int) (hs : times.Pairwise (· < ·)) (hm : t ∈ times) :
+    searchsorted times t < times.length ∧ times.getD (searchsorted times t) 0 = t :=
+  ss_finds times t hs hm
+
+/-- non-vacuity: queries in scrambled order with an eviction (memo of 3) leave a sorted memo -/
+example : (calls (m2Alg false) (init (m2Alg false) false 3) [(5, 0), (-2, 0), (3, 1), (7, 0), (1, 0)]).1.times.Pairwise (· < ·) ∧
+    (calls (m2Alg false) (init (m2Alg false) false 3) [(5, 0), (-2, 0), (3, 1), (7, 0), (1, 0)]).1.times.length = 3 := by
+  decide
 
 /-- Run / step protocol over an exact flow: the state reported for the last time of *any* list of
 output times (any partition, any intermediate stops) is the flow applied to the initial state —
